@@ -171,3 +171,54 @@ Example C12_layout_example :
 Proof.
   split; [apply wf_b_sound; vm_compute; reflexivity|]. vm_compute. repeat split; reflexivity.
 Qed.
+
+(* ---- one system, tags and docs (Model/Tables.v, Props/Tables.v, notes/Tables.md): what this file's model produces
+   is what C06's model (merge / IsGeneratorEnabled) and C16's model (Context.Doc / runtimedoc) take as data ---- *)
+Require Gengo.Model.Dispatch Gengo.Model.Tables Gengo.Proofs.TablesB Gengo.Props.Tables.
+Module T := Gengo.Model.Tables.
+
+(* the tag map of a list of lines read with C06's map operations: lookup = the values of the tag lines with that key,
+   keys = the keys of the tag lines, no key twice (so C06's hypotheses "tag maps are maps" hold of it) *)
+Theorem C12_tags_feed_C06 :
+  forall lines,
+    (forall k, Dispatch.lookup k (Gengo.Proofs.TablesB.tags_of_lines lines) = T.line_value lines k)
+    /\ (forall k, In k (Dispatch.keys (Gengo.Proofs.TablesB.tags_of_lines lines)) <-> In k (spec_keys T.ms0 lines))
+    /\ NoDup (Dispatch.keys (Gengo.Proofs.TablesB.tags_of_lines lines)).
+Proof. exact Gengo.Props.Tables.Tables_tags_of_lines. Qed.
+Print Assumptions C12_tags_feed_C06.
+
+(* extraction -> merge -> enabled, for all well-formed layouts: IsGeneratorEnabled on what Context.Doc returns at the
+   line of declaration d is C06's rule evaluated on the lines of the stand-alone comment group ending on the line
+   above d, the package doc lines and the global tags *)
+Theorem C12_enabled_from_source :
+  forall g G docs evs leads d,
+    NoDup (Dispatch.keys G) -> wf evs leads -> In d (decls_of evs) ->
+    T.enabled_from_source g G docs evs (p_file (d_pos d)) (p_line (d_pos d))
+    = T.source_rule g G (map split_nl docs) (doc_lines_above leads (p_file (d_pos d)) (p_line (d_pos d))).
+Proof. exact Gengo.Props.Tables.Tables_enabled_from_source. Qed.
+Print Assumptions C12_enabled_from_source.
+
+(* the known finding name_on_continuation_line, seen from C06: for every name under its negation, refuted otherwise *)
+Theorem C12_enabled_from_source_names :
+  forall g G docs evs leads d l,
+    NoDup (Dispatch.keys G) -> wf evs leads -> name_on_continuation_line evs = false ->
+    In d (decls_of evs) -> In l (d_names d) ->
+    T.enabled_from_source g G docs evs (p_file (d_pos d)) l
+    = T.source_rule g G (map split_nl docs) (doc_lines_above leads (p_file (d_pos d)) (p_line (d_pos d))).
+Proof. exact Gengo.Props.Tables.Tables_enabled_from_source_names. Qed.
+Print Assumptions C12_enabled_from_source_names.
+
+Theorem C12_enabled_from_source_names_refuted :
+  exists g G docs evs leads d l,
+    NoDup (Dispatch.keys G) /\ wf evs leads /\ In d (decls_of evs) /\ In l (d_names d)
+    /\ T.enabled_from_source g G docs evs (p_file (d_pos d)) l = false
+    /\ T.source_rule g G (map split_nl docs) (doc_lines_above leads (p_file (d_pos d)) (p_line (d_pos d))) = true.
+Proof. exact Gengo.Props.Tables.Tables_enabled_from_source_names_refuted. Qed.
+Print Assumptions C12_enabled_from_source_names_refuted.
+
+(* the doc lines handed to Context.Doc / the generators: the non-tag lines of the group above *)
+Theorem C12_doc_lines_feed_C16 :
+  forall evs leads, wf evs leads -> forall d, In d (decls_of evs) ->
+    T.doc_lines_at evs (p_file (d_pos d), p_line (d_pos d)) = T.source_doc leads (p_file (d_pos d)) (p_line (d_pos d)).
+Proof. exact Gengo.Props.Tables.Tables_doc_lines_from_source. Qed.
+Print Assumptions C12_doc_lines_feed_C16.
